@@ -37,6 +37,7 @@ __all__ = ['Envelope']
 
 _HEADER_BOUNDARY = re.compile(br'\r?\n\s*?\n')
 _LINE_BREAK = re.compile(br'\r?\n')
+_SMTP_NO_REFOLD = SMTP.clone(refold_source='none')
 
 
 class Envelope(object):
@@ -91,7 +92,13 @@ class Envelope(object):
 
     def _msg_generator(self, msg):
         outfp = BytesIO()
-        BytesGenerator(outfp, policy=SMTP).flatten(msg, False)
+        try:
+            BytesGenerator(outfp, policy=SMTP).flatten(msg, False)
+        except Exception:
+            # The email package cannot re-fold some over-long, malformed
+            # header lines. Write the headers as they were received instead.
+            outfp = BytesIO()
+            BytesGenerator(outfp, policy=_SMTP_NO_REFOLD).flatten(msg, False)
         return outfp.getvalue()
 
     def _merge_payloads(self, headers, payload):
